@@ -10,7 +10,6 @@ package main
 import (
 	"context"
 	"fmt"
-	"io"
 	"net"
 	"strconv"
 	"sync"
@@ -215,13 +214,14 @@ func (w *wireCluster) produce(broker int32, m *produce.Request) (protocol.Messag
 		// not the leader: nothing is appended; the records are still read (to name them in the journal)
 		topic := m.Topics[0].Topic
 		part := int(m.Topics[0].Partitions[0].Partition)
-		keys := recordKeys(m)
+		keys, shapes := readRecs(m.Topics[0].Partitions[0].RecordSet.Records)
 		w.mu.Lock()
 		w.misrouted++
 		w.mu.Unlock()
 		w.f.mu.Lock()
-		for _, k := range keys {
+		for i, k := range keys {
 			w.f.attempted[k] = true
+			w.f.shapes[k+":"+shapes[i]] = true
 		}
 		kafka.VerifWriterEmit("Br.Produce", topic, part, joinKeys(keys), "k6")
 		w.f.mu.Unlock()
@@ -232,24 +232,6 @@ func (w *wireCluster) produce(broker int32, m *produce.Request) (protocol.Messag
 		return nil, true
 	}
 	return res.(*produce.Response), false
-}
-
-func recordKeys(r *produce.Request) []string {
-	var keys []string
-	rr := r.Topics[0].Partitions[0].RecordSet.Records
-	for rr != nil {
-		rec, err := rr.ReadRecord()
-		if err != nil {
-			break
-		}
-		k := ""
-		if rec.Key != nil {
-			b, _ := io.ReadAll(rec.Key)
-			k = string(b)
-		}
-		keys = append(keys, k)
-	}
-	return keys
 }
 
 func joinKeys(keys []string) string {
